@@ -419,11 +419,17 @@ func (p *Pollard) Verify(delHashes []Hash, proof Proof, remember bool) error {
 			"but have %d deletions", len(delHashes))
 	}
 
+	// Each root candidate must be the root of the tree that its targets are in.
+	rootIndexes, err := targetRootIndexes(proof.Targets, p.NumLeaves)
+	if err != nil {
+		return err
+	}
 	rootMatches := 0
-	for i := range p.Roots {
-		if len(rootCandidates) > rootMatches &&
-			p.Roots[len(p.Roots)-(i+1)].data == rootCandidates[rootMatches] {
-			rootMatches++
+	if len(rootCandidates) == len(rootIndexes) {
+		for i, index := range rootIndexes {
+			if index < len(p.Roots) && p.Roots[index].data == rootCandidates[i] {
+				rootMatches++
+			}
 		}
 	}
 	// Error out if all the rootCandidates do not have a corresponding
@@ -434,7 +440,7 @@ func (p *Pollard) Verify(delHashes []Hash, proof Proof, remember bool) error {
 			rootHashes[i] = p.Roots[i].data
 		}
 		// The proof is invalid because some root candidates were not
-		// included in `roots`.
+		// the roots of the trees that the targets are in.
 		err := fmt.Errorf("Pollard.Verify fail. Have %d roots but only "+
 			"matched %d roots.\nRootcandidates:\n%v\nRoots:\n%v",
 			len(rootCandidates), rootMatches,
